@@ -2,6 +2,7 @@
   C04 — the fully-decrypted NCCH view is one consistent, key-free image of the container.
 -/
 import Proofs.NcchViews
+import Proofs.FullReadProofs
 namespace Pyctr.C04
 open Pyctr Pyctr.Ncch
 
@@ -35,5 +36,51 @@ theorem C04_header_rewrite (d : Bytes) (i : Nat) (hi : i ≠ 0x18B ∧ i ≠ 0x1
     (setByte (setByte d 0x18B 0) 0x18F 4)[i]? = d[i]? := by
   unfold setByte
   split <;> split <;> simp [List.getElem?_set, hi.1.symm, hi.2.symm]
+
+/-- the planning loop: for non-overlapping sections (`regionsApart`, decidable, evaluated on every generated image) the planned
+    pieces stand for exactly the 0x200-byte chunks of the aligned request, in order, each with its dict key and its offset inside
+    that key's source; no key occurs twice; every piece is a positive whole number of chunks; the last piece belongs to the last
+    chunk -/
+theorem C04_plan (s : State) (h : regionsApart s = true) (a n : Nat) : PlanInv s a n (plan s a n) :=
+  plan_spec s (contig_of_disjoint s (regionsDisjoint_of_apart s h)) a n
+
+/-- **one consistent image.**  Let the sections not overlap, let `get_data` of each section (and of a raw chunk) return the slice
+    of that section's plaintext `src` (what the C03 section theorems give), let every chunk of the content lie inside its source
+    and the header be the chunk at offset 0.  Then EVERY read of the fully-decrypted view — any offset and length: inside a chunk,
+    straddling section boundaries, covering gaps, reaching the end — is the corresponding slice of the one image `fullImage`
+    (the chunk-wise concatenation of the section plaintexts and pass-through gaps, header crypto flags rewritten). -/
+theorem C04_one_image (E : Bytes → Bytes → Bytes) (s : State) (file : Bytes) (start : Nat) (src : Nat → Bytes) (N : Nat)
+    (g : ReadGeom E s file start src N) (r : Region) (hr : s.region? secFull = some r) (offset size : Nat) (hs : 0 < size)
+    (h1 : offset + size ≤ r.size) (h2 : start + offset + size ≤ file.length) (h3 : offset + size ≤ 0x200 * N) :
+    fullRead E s file start offset (size : Int) = .ok (slice (fullImage s src N) offset size) :=
+  fullRead_spec E s file start src N g r hr offset size hs h1 h2 h3
+
+/-- hence a read at (offset, length) equals the slice of one whole-image read -/
+theorem C04_consistent (E : Bytes → Bytes → Bytes) (s : State) (file : Bytes) (start : Nat) (src : Nat → Bytes) (N : Nat)
+    (g : ReadGeom E s file start src N) (r : Region) (hr : s.region? secFull = some r) (hR : 0 < r.size)
+    (hfile : start + r.size ≤ file.length) (hN : r.size ≤ 0x200 * N) (offset size : Nat) (hs : 0 < size)
+    (h1 : offset + size ≤ r.size) :
+    ∃ whole, fullRead E s file start 0 (r.size : Int) = .ok whole ∧ whole.length = r.size ∧
+      fullRead E s file start offset (size : Int) = .ok (slice whole offset size) := by
+  have hw := fullRead_spec E s file start src N g r hr 0 r.size hR (by omega) (by omega) (by omega)
+  have hp := fullRead_spec E s file start src N g r hr offset size hs h1 (by omega) (by omega)
+  refine ⟨_, hw, ?_, ?_⟩
+  · rw [slice_length]
+    have : (fullImage s src N).length = N * 0x200 := by
+      unfold fullImage
+      exact Save.flatMap_length_uniform _ 0x200 N (fun b hb => chunkContent_length E s file start src N g b hb)
+    omega
+  · rw [hp, slice_slice _ 0 r.size offset size h1, Nat.zero_add]
+
+/-- the `get_data` hypothesis of `C04_one_image` holds outright for containers without encryption (NoCrypto flag, or opened
+    with `assume_decrypted` — in particular for the re-parsed fully-decrypted image): the sources are the windows themselves -/
+theorem C04_plain_sources (E : Bytes → Bytes → Bytes) (s : State) (file : Bytes) (start : Nat)
+    (hplain : (s.assumeDecrypted || s.flags.noCrypto) = true) (sec off sz : Nat) (hsz : 0 < sz)
+    (h : off + sz ≤ (plainSrc s file start sec).length) :
+    getData E s file start sec off (sz : Int) = .ok (slice (plainSrc s file start sec) off sz) :=
+  gd_plain E s file start hplain sec off sz hsz h
+
+/-- the decidable geometry criterion implies the disjointness the theorems use -/
+theorem C04_apart (s : State) (h : regionsApart s = true) : RegionsDisjoint s := regionsDisjoint_of_apart s h
 
 end Pyctr.C04
